@@ -27,7 +27,10 @@ RULE = ("cases = (a) stacks: a stack name (blanks, dots, '+'), 3-6 declarations 
         "quotes, missing End, fields before FLAVOR, QUALIFIERS); (d) hand-written version files whose PROD_DIR / UPS_DIR / "
         "TABLE_FILE use $PROD_ROOT, $PROD_DIR, $UPS_DIR, $UPS_DB, $FLAVOR, near-miss macro names, relative, absolute, "
         "none or missing values, over a random set of existing files, read by a real reader (files and cache) before and "
-        "after the stack is renamed. Non-trivial: (a) at least one declaration "
+        "after the stack is renamed; (e) one product declared for two or three flavors (Linux, Linux64, generic) with the "
+        "same tags on several flavors, then Database.undeclare / Eups.undeclare / unassignTag / untag / assignTag / "
+        "declare -t (re-pointing) / forced redeclaration of ONE flavor, comparing every other flavor's block of every "
+        "version and chain record (parsed and as text) before and after. Non-trivial: (a) at least one declaration "
         "succeeded and was read back after the relocation, (b,c) always; distinct = distinct case digests")
 TRUSTED = ["os.path.realpath is the identity on the scratch paths (no symbolic links); os.path.join/abspath on "
            "normalised paths = concatenation of segments",
@@ -748,6 +751,233 @@ def check_hand(ctx, case, obs):
 
 
 # ================================================================================================
+# (e) database-layer operations on records that hold several flavors: the other flavors' blocks
+# ================================================================================================
+
+DB_FLAVORS = ["Linux", "Linux64", "generic"]
+DB_TAGS = ["current", "beta"]
+DB_VERSIONS = ["1.0", "2.0"]
+
+
+def gen_dbops(rng):
+    """One product declared for two or three flavors (several versions, the same tags on several flavors), then
+    operations that concern ONE flavor each: undeclare, unassign a tag, assign / re-point a tag, redeclare."""
+    flavors = rng.sample(DB_FLAVORS, rng.choice([2, 2, 3]))
+    decl = []
+    for v in DB_VERSIONS if rng.random() < 0.7 else DB_VERSIONS[:1]:
+        fl = [f for f in flavors if rng.random() < 0.85] or flavors[:1]
+        for f in fl:
+            decl.append({"version": v, "flavor": f})
+    rng.shuffle(decl)
+    tags = []
+    for t in DB_TAGS:
+        if rng.random() < 0.85:
+            v = rng.choice(DB_VERSIONS)
+            same = rng.random() < 0.7            # the same tag on the same version for every flavor that has it
+            for f in flavors:
+                vv = v if same else rng.choice(DB_VERSIONS)
+                if any(d["version"] == vv and d["flavor"] == f for d in decl) and rng.random() < 0.9:
+                    tags.append({"tag": t, "version": vv, "flavor": f})
+    ops = []
+    for _ in range(rng.randint(2, 6)):
+        f = rng.choice(flavors)
+        k = rng.choice(["db_undeclare", "eups_undeclare", "db_unassign", "eups_untag", "db_assign", "eups_retag", "redeclare"])
+        op = {"kind": k, "flavor": f}
+        if k in ("db_undeclare", "eups_undeclare", "db_assign", "eups_retag", "redeclare"):
+            op["version"] = rng.choice(DB_VERSIONS)
+        if k in ("db_unassign", "eups_untag", "db_assign", "eups_retag"):
+            op["tag"] = rng.choice(DB_TAGS)
+        ops.append(op)
+    return {"kind": "dbops", "name": "q", "flavors": flavors, "decl": decl, "tags": tags, "ops": ops}
+
+
+def _dir_texts(pdir):
+    out = {}
+    if os.path.isdir(pdir):
+        for fn in sorted(os.listdir(pdir)):
+            if fn.endswith(".version") or fn.endswith(".chain"):
+                out[fn] = lib_records.read_text(os.path.join(pdir, fn))
+    return out
+
+
+def _blocks(fn, text):
+    """flavor -> (parsed dictionary, text lines of the block) of a record text."""
+    VersionFile, ChainFile = _vf_mods()
+    tmp = os.path.join(os.getcwd(), "blk." + ("version" if fn.endswith(".version") else "chain"))
+    with open(tmp, "w", newline="") as fh:
+        fh.write(text)
+    try:
+        rec = (VersionFile if fn.endswith(".version") else ChainFile)(tmp, verbosity=-1)
+        parsed = {fq: dict(i) for fq, i in rec.info.items()}
+    except Exception as ex:  # noqa
+        return {"?": ("EXC:" + lib_records.exc_name(ex), [])}
+    finally:
+        os.remove(tmp)
+    lines, cur, blocks = text.split("\n"), None, {}
+    for ln in lines:
+        st = ln.strip()
+        if st in ("Group:", "#Group:"):
+            cur = []
+            continue
+        if cur is None or st in ("", "End:", "#End:"):
+            continue
+        cur.append(st)
+        if st.startswith("FLAVOR = "):
+            blocks[st[len("FLAVOR = "):]] = cur
+    return {fq: (parsed.get(fq), blocks.get(fq.split(":")[0], [])) for fq in parsed}
+
+
+def _child_dbsetup(stack, case):
+    lib_records.silence()
+    lib_records.patch_stamps(0)
+    D = common.eups_mod("db.Database")
+    P = common.eups_mod("Product")
+    dbpath = os.path.join(stack, "ups_db")
+    db = D.Database(dbpath)
+    for d in case["decl"]:
+        pd = common.mkprod(stack, case["name"], d["version"], flavor=d["flavor"])
+        tags = [t["tag"] for t in case["tags"] if t["version"] == d["version"] and t["flavor"] == d["flavor"]]
+        db.declare(P.Product(case["name"], d["version"], d["flavor"], pd,
+                             os.path.join(pd, "ups", case["name"] + ".table"), tags, dbpath))
+    return True
+
+
+def _child_dbop(R, stack, case, op, clock0):
+    lib_records.silence()
+    os.chdir(R + "/cwd")
+    shutil.rmtree(os.path.join(R, "userdataA", "_caches_"), ignore_errors=True)
+    clock = lib_records.patch_stamps(clock0)
+    name, f = case["name"], op["flavor"]
+    dbpath = os.path.join(stack, "ups_db")
+    err = None
+    try:
+        if op["kind"].startswith("db_"):
+            D = common.eups_mod("db.Database")
+            P = common.eups_mod("Product")
+            db = D.Database(dbpath)
+            if op["kind"] == "db_undeclare":
+                db.undeclare(P.Product(name, op["version"], f))
+            elif op["kind"] == "db_unassign":
+                db.unassignTag(op["tag"], name, f)
+            else:
+                db.assignTag(op["tag"], name, op["version"], f)
+        else:
+            e = common.new_eups(flavor=f, force=(op["kind"] == "redeclare"))
+            if op["kind"] == "eups_undeclare":
+                e.undeclare(name, op["version"])
+            elif op["kind"] == "eups_untag":
+                e.undeclare(name, None, tag=op["tag"])
+            elif op["kind"] == "eups_retag":
+                e.declare(name, op["version"], tag=op["tag"])
+            else:
+                e.declare(name, op["version"], os.path.join(stack, f, name, op["version"]))
+    except Exception as ex:  # noqa
+        err = lib_records.exc_name(ex)
+    return {"err": err, "clock": clock.n}
+
+
+def run_dbops(case):
+    R = common.scratch("c16d")
+    try:
+        stack = os.path.join(R, "stack")
+        for d in (stack + "/ups_db", R + "/cwd", R + "/userdataA"):
+            os.makedirs(d)
+        with open(R + "/userdataA/startup.py", "w") as f:
+            f.write(common.STARTUP % {"tags": "'beta'"})
+        os.environ["EUPS_PATH"] = stack
+        os.environ["EUPS_USERDATA"] = R + "/userdataA"
+        r = common.in_child(_child_dbsetup, stack, case)
+        if r[0] != "ok":
+            return {"setup": str(r[:3])}
+        pdir = os.path.join(stack, "ups_db", case["name"])
+        obs = {"steps": []}
+        clock = 100
+        back = os.getcwd()
+        os.chdir(R + "/cwd")
+        try:
+            for op in case["ops"]:
+                before = _dir_texts(pdir)
+                declared = {(d_, f_) for fn, t in before.items() if fn.endswith(".version")
+                            for f_ in _blocks(fn, t) for d_ in [fn[:-8]]}
+                # the Eups-level commands are only run on a declared (version, flavor): with fallback flavors an
+                # undeclared one would first be *declared* from another flavor's directory
+                if op["kind"] in ("eups_undeclare", "eups_retag", "redeclare") and (op["version"], op["flavor"]) not in declared:
+                    obs["steps"].append({"skipped": True})
+                    continue
+                r = common.in_child(_child_dbop, R, stack, case, op, clock)
+                after = _dir_texts(pdir)
+                step = {"before": before, "after": after, "clock0": clock,
+                        "bb": {fn: _blocks(fn, t) for fn, t in before.items()},
+                        "ba": {fn: _blocks(fn, t) for fn, t in after.items()}}
+                if r[0] == "ok":
+                    step["err"] = r[1]["err"]
+                    clock = r[1]["clock"]
+                else:
+                    step["err"] = "child:" + str(r[1])
+                    clock += 4
+                obs["steps"].append(step)
+        finally:
+            os.chdir(back)
+        return obs
+    finally:
+        common.rmtree(R)
+
+
+def check_dbops(ctx, case, obs):
+    if "setup" in obs:
+        raise common.InfraError("dbops setup failed: %s" % obs["setup"])
+    reqs, idx = [], []
+    for i, (op, st) in enumerate(zip(case["ops"], obs["steps"])):
+        if st.get("skipped") or op["kind"] == "redeclare":
+            continue
+        kind = {"db_undeclare": "undeclare", "eups_undeclare": "undeclare", "db_unassign": "unassign",
+                "eups_untag": "unassign", "db_assign": "assign", "eups_retag": "retag"}[op["kind"]]
+        dbop = {"kind": kind, "flavor": op["flavor"], "who": lib_records.WHO, "now": "T%d" % (st["clock0"] + 1)}
+        for k in ("version", "tag"):
+            if k in op:
+                dbop[k] = op[k]
+        reqs.append({"m": "c16", "op": "dbop", "name": case["name"], "dbop": dbop,
+                     "versions": [[fn[:-8], t] for fn, t in st["before"].items() if fn.endswith(".version")],
+                     "chains": [[fn[:-6], t] for fn, t in st["before"].items() if fn.endswith(".chain")]})
+        idx.append(i)
+    answers = ctx.lean.ask_many(reqs)
+    ans_of = dict(zip(idx, answers))
+    for i, (op, st) in enumerate(zip(case["ops"], obs["steps"])):
+        ctx.hist("dbop=%s%s" % (op["kind"], "/skipped" if st.get("skipped") else ""))
+        if st.get("skipped"):
+            continue
+        inp = {**case, "step": i}
+        if st["err"]:
+            ctx.hist("dbop-outcome=" + st["err"])
+        nfl = max([len(b) for b in st["bb"].values()] or [0])
+        ctx.hist("dbop-max-flavors-in-a-record=%d" % nfl)
+        # oracle (i): the texts of all records of the product after the operation
+        a = ans_of.get(i)
+        if a is not None:
+            if "bad-op" in a:
+                raise common.InfraError("driver: %s" % a)
+            if "err" in a:
+                ctx.disagree("dbop_records", inp, st["after"], "ERR:" + a["err"])
+            else:
+                mo = {n + ".version": t for n, t in a["versions"] if t is not None}
+                mo.update({n + ".chain": t for n, t in a["chains"] if t is not None})
+                if mo != st["after"]:
+                    ctx.disagree("dbop_records", inp, st["after"], mo)
+        # oracle (ii): every block of every other flavor, in every version and chain record, parsed and as text
+        F = op["flavor"]
+        for fn in sorted(set(st["bb"]) | set(st["ba"])):
+            bb, ba = st["bb"].get(fn, {}), st["ba"].get(fn, {})
+            for fq in sorted(set(bb) | set(ba)):
+                if fq.split(":")[0] == F:
+                    continue
+                if bb.get(fq) != ba.get(fq):
+                    ctx.fail("other_flavor_block_unchanged/" + ("chain" if fn.endswith(".chain") else "version"), inp,
+                             {"file": fn, "flavor": fq, "after": ba.get(fq)}, None if a is None else
+                             {"file": fn, "flavor": fq, "after": _blocks(fn, mo[fn]).get(fq) if ("err" not in a and fn in mo) else None},
+                             note="%s on flavor %s changed the %s block of %s: %r -> %r" % (op["kind"], F, fq, fn, bb.get(fq), ba.get(fq)))
+
+
+# ================================================================================================
 # entry points
 # ================================================================================================
 
@@ -767,6 +997,8 @@ def _work(cases):
                 out.append(run_reloc(c))
             elif c["kind"] == "hand":
                 out.append(run_hand(c))
+            elif c["kind"] == "dbops":
+                out.append(run_dbops(c))
             else:
                 out.append(run_rec(c, wd))
     finally:
@@ -786,7 +1018,7 @@ def evaluate(ctx, cases, workers=6):
     # record cases: one batch of model requests
     reqs, spans = [], []
     for c, io_ in zip(cases, impl):
-        if c["kind"] in ("reloc", "hand"):
+        if c["kind"] in ("reloc", "hand", "dbops"):
             spans.append(None)
             continue
         r = rec_requests(c, io_)
@@ -798,7 +1030,11 @@ def evaluate(ctx, cases, workers=6):
             raise common.InfraError("driver: %s" % a)
     for c, io_, sp in zip(cases, impl, spans):
         key = {k: v for k, v in c.items() if not k.startswith("_")}
-        if c["kind"] == "hand":
+        if c["kind"] == "dbops":
+            check_dbops(ctx, c, io_)
+            ctx.case(key=key, nontrivial=any(not st.get("skipped") and st["before"] != st["after"] for st in io_["steps"]),
+                     sample={"case": key} if ctx.evaluations % 211 == 0 else None)
+        elif c["kind"] == "hand":
             check_hand(ctx, c, io_)
             ctx.case(key=key, nontrivial=True, sample={"case": key} if ctx.evaluations % 197 == 0 else None)
         elif c["kind"] == "reloc":
@@ -824,7 +1060,8 @@ def corpus_cases():
 
 
 def gen_batch(rng, nreloc, nrec):
-    cases = [gen_reloc(rng) for _ in range(nreloc)] + [gen_hand(rng) for _ in range(nreloc * 3)]
+    cases = [gen_reloc(rng) for _ in range(nreloc)] + [gen_hand(rng) for _ in range(nreloc * 3)] + \
+        [gen_dbops(rng) for _ in range((nreloc + 1) // 2)]
     for _ in range(nrec):
         r = rng.random()
         cases.append(gen_vrec(rng) if r < 0.35 else gen_crec(rng) if r < 0.55 else gen_text(rng, chain=r > 0.8))
